@@ -19,8 +19,10 @@ FwdExact(o) == o.jvp_raised \/ (o.jvp_nbad = 0 /\ o.jvp_shape = o.out_shape /\ o
 \* (results of the wrong structure cannot be paired at all: that is C05's finding, not C04's)
 \* linear also as *traced* functions at the origin: d/dg vjp(g) at g = 0 is vjp, d/dv jvp(v) at v = 0 is jvp
 LinearAtZero(o) == o.lin0_vjp = 0 /\ o.lin0_jvp = 0
-Adjoint(o) == (~o.vjp_raised /\ ~o.jvp_raised /\ o.vjp_shape = o.in_shape /\ o.jvp_shape = o.out_shape)
-                 => (o.adj_checked /\ o.adj_nbad = 0 /\ o.lin_vjp = 0 /\ o.lin_jvp = 0 /\ LinearAtZero(o))
+Adjoint(o) == /\ (~o.vjp_raised /\ ~o.jvp_raised /\ o.vjp_shape = o.in_shape /\ o.jvp_shape = o.out_shape)
+                    => (o.adj_checked /\ o.adj_nbad = 0 /\ o.lin_vjp = 0 /\ o.lin_jvp = 0 /\ LinearAtZero(o))
+              \* through the linear functional G = sum o f (pairs whatever shapes the two modes produce): <1, JVP_G v> = <VJP_G 1, v>
+              /\ (~o.vjp_raised /\ ~o.jvp_raised) => o.sum_pair_bad = 0
 \* C10 per configuration: the VJP function is reusable and the caller's arrays are intact
 Reusable(o) == ~o.vjp_raised => (~o.vjp_late /\ o.intact)
 \* C05: a VJP result has exactly the structure of the argument; a JVP result that of the output
